@@ -79,6 +79,12 @@ class TaggedEADeme(EADeme):
     tag = "custom-ea"
 
 
+class OverridingEADeme(EADeme):
+    """A user's own deme class registered for the *built-in* EALevelConfig (e.g. an EADeme that traces or post-processes)."""
+
+    tag = "overrides-built-in"
+
+
 class TaggedEAConfig2(TaggedEAConfig):
     """A second user config class, derived from the first one and registered (after it) for its own deme class."""
 
